@@ -26,7 +26,8 @@ const Prelude = `
 (declare-datatypes ((Iface 0)) (((mkiface (ityp Int) (ival Int)))))
 (define-fun fldp ((p Ptr) (i Int)) Ptr (ptr (pobj p) (fld (ppath p) i)))
 (define-fun elemp ((p Ptr) (i Int)) Ptr (ptr (pobj p) (elem (ppath p) i)))
-(define-fun selem ((s Slice) (i Int)) Ptr (elemp (sbase s) (+ (soff s) i)))
+(declare-fun selem (Slice Int) Ptr)
+(assert (forall ((s Slice) (i Int)) (! (= (selem s i) (elemp (sbase s) (+ (soff s) i))) :pattern ((selem s i)))))
 (define-fun nilslice () Slice (mkslice nil 0 0 0))
 (define-fun niliface () Iface (mkiface 0 0))
 (declare-fun str_empty () Str)
